@@ -147,7 +147,7 @@ class C16(Prop):
         "the written index is parsed from the output text independently of lasio's data reader",
         "index values are finite, |x| < 1e7",
     ]
-    quick = {"runs": 40000, "wall": 60}
+    quick = {"runs": 30000, "wall": 60}
     thorough = {"runs": 200000, "wall": 900}
 
     # ------------------------------------------------------------------------------------------------------
@@ -206,6 +206,12 @@ class C16(Prop):
         writes = []
         for i in range(nw):
             w = {"channel": g.choice(["path", "stream", "stringio"])}
+            if i > 0 and g.random() < 0.3:
+                # the object is edited between two writes (index in place / rebound / another curve), possibly after the
+                # data table was looked at
+                w["pre"] = [g.choice([["touch_data"], ["index_inplace", g.randrange(8), g.choice([0.25, -0.5, 100.0])],
+                                      ["index_scale", g.choice([0.3048, 2.0])], ["other_inplace", g.randrange(8), g.randrange(8)],
+                                      ["index_rebind", g.choice(["inc", "dec", "irr"]), g.randrange(50)]]) for _ in range(g.randint(1, 2))]
             if g.random() < 0.25 and w["channel"] != "stringio":
                 w["fault"] = {"kind": "write", "nth": st.fault.randint(1, 3), "errno": st.fault.choice(["ENOSPC", "EIO"])}
             writes.append(w)
@@ -275,18 +281,29 @@ class C16(Prop):
             trigger = b["stop"] != "ok"
         return las, trigger
 
-    def apply_edits(self, sc, las, res):
+    def apply_edits(self, sc, las, res, edits=None):
         """Returns True when the index was created or changed in memory."""
         import lasio
         changed = False
         rows = sc["base"]["rows"]
         cm = None
-        for e in sc["edits"]:
+        for e in (sc["edits"] if edits is None else edits):
             k = e[0]
             res.count("edit:" + k)
             if k == "index_inplace":
                 if len(las.curves) and len(las.index) and np.asarray(las.index).dtype.kind == "f":
                     las.index[e[1] % len(las.index)] += e[2]
+                    changed = True
+            elif k == "touch_data":
+                try:
+                    las.data
+                    las.index
+                    las.keys()
+                except Exception:
+                    pass
+            elif k == "index_scale":
+                if len(las.curves) and len(las.index) and np.asarray(las.index).dtype.kind == "f":
+                    las.curves[0].data *= e[1]
                     changed = True
             elif k == "index_rebind":
                 if len(las.curves):
@@ -366,6 +383,12 @@ class C16(Prop):
             nsucc = 0
             failed_before_success = False
             for wi, w in enumerate(sc["writes"]):
+                if w.get("pre"):
+                    if self.apply_edits(sc, las, res, edits=w["pre"]):
+                        trigger = True
+                    if any(e[0] != "touch_data" for e in w["pre"]):
+                        prev_text, prev_snap = None, None      # the object changed: the next write is not a repetition
+                    res.count("writes-after-an-edit")
                 before = snapshot(las)
                 before_vals = {"Well": [it.value for it in las.well], "Parameter": [it.value for it in las.params]}
                 path = "/simfs/c16/out%d.las" % wi
